@@ -1687,3 +1687,96 @@ def replay(rep):  # noqa: F811
         print('replay: %s' % ('violation reproduced on the real code' if w2 else 'not reproduced'))
         return 1 if w2 else 0
     return _rp22(rep)
+
+
+# ---- pretty (C06): every shown number read back through Rink itself (bounded stand-in / replay) ----
+PRETTY_BIN = os.path.join(WORK, 'replay-core-target', 'release', 'vx-replay-pretty')
+known_hits = {}
+
+
+def _known_entries(prop, obligation_prefix):
+    try:
+        d = json.load(open(os.path.join(ROOT, 'known_findings.json')))
+    except Exception:
+        return []
+    return [k for k in d.get('findings', []) if k.get('property') == prop and k.get('status') == 'known'
+            and k.get('obligation', '').startswith(obligation_prefix) and k.get('match')]
+
+
+def _pretty_run(extra_lines=None, deep=False):
+    if build_core() != 0:
+        return None, 'replay build failed'
+    args = [PRETTY_BIN, '--sweep-deep' if deep else '--sweep']
+    if extra_lines:
+        args.append('--stdin')
+    import subprocess as _sp
+    t0 = time.time()
+    p = _sp.run(args, input='\n'.join(extra_lines or []), capture_output=True, text=True, timeout=3000)
+    return p.stdout, None
+
+
+def _pretty_witness(prop='C06', deep=False):
+    import re as _re5
+    out, err = _pretty_run(deep=deep)
+    if out is None:
+        return None
+    fails = [l for l in out.splitlines() if l.startswith('FAIL ')]
+    summary = ([l for l in out.splitlines() if l.startswith('PRETTY ')] or [''])[0]
+    known = _known_entries(prop, 'bounded::pretty#')
+    hits = []
+    other = []
+    for l in fails:
+        for k in known:
+            if _re5.search(k['match'], l):
+                if k['obligation'] not in hits:
+                    hits.append(k['obligation'])
+                break
+        else:
+            other.append(l)
+    known_hits['pretty'] = hits
+    if not summary:
+        return {'replayer': 'pretty', 'input': {'query': '(sweep)'}, 'output': one_line(out, 400), 'why': 'the read-back sweep did not finish: ' + one_line(out[-400:], 300), 'cmd': PRETTY_BIN}
+    if not other:
+        return None
+    l = other[0]
+    q = l[5:].split(' :: ')[0]
+    return {'replayer': 'pretty', 'input': {'query': q, 'expected': 'the shown numeral x factor x unit, read back by Rink, equals the quantity'},
+            'output': l, 'others': other[1:20], 'n_failures': len(other),
+            'why': one_line(l[5:], 400), 'cmd': 'echo %r | %s --stdin' % (q, PRETTY_BIN)}
+
+
+_sf23 = search_family
+
+
+def search_family(fam, prop):  # noqa: F811
+    if fam == 'pretty':
+        return _pretty_witness(prop, deep=(os.environ.get('VERIF_TIER') == 'thorough'))
+    return _sf23(fam, prop)
+
+
+_fw24 = find_witness
+
+
+def find_witness(o, rep):  # noqa: F811
+    if o.get('unit') == 'pretty' or rep.get('property') == 'C06':
+        w = _pretty_witness('C06')
+        if w:
+            return w
+    return _fw24(o, rep)
+
+
+_rp24 = replay
+
+
+def replay(rep):  # noqa: F811
+    w = rep.get('replay') or {}
+    if w.get('replayer') == 'pretty':
+        if build_core() != 0:
+            return 2
+        import subprocess as _sp
+        p = _sp.run([PRETTY_BIN, '--stdin'], input=w['input']['query'] + '\n', capture_output=True, text=True, timeout=600)
+        print(p.stdout)
+        bad = 'FAIL ' in p.stdout
+        print('replay: %s' % ('violation reproduced on the real code' if bad else 'not reproduced'))
+        return 1 if bad else 0
+    return _rp24(rep)
